@@ -419,6 +419,14 @@ theorem gen_switch_shape :
     Gen.C11.casePointer = true ∧ Gen.C11.caseStruct = true ∧ Gen.C11.caseSlice = true ∧
     Gen.C11.caseMap = true ∧ Gen.C11.otherCases = 0 ∧ Gen.C11.defaultReturnsArg = true := by decide
 
+/-- the copy constructors of package conf are exactly the ones modelled (`deepClone`, `Conf.Clone`,
+`Path.Clone` = `cloneRoot`); a new `CloneXxx` / copy method breaks this obligation until it is modelled (the
+harness additionally runs the independence test on every parameterless method returning `*Conf`/`*Path`) -/
+theorem gen_clone_constructors : Gen.C11.unknownCloneConstructors = 0 ∧ Gen.C11.cloneConstructors = 3 := by decide
+
+/-- the switch has its Interface case: the driver runs the model for which `clone_independent_fixed` holds -/
+theorem gen_case_interface : Gen.C11.caseInterface = true := by decide
+
 /-! #### non-vacuity -/
 
 /-- a small config-like value: struct{ *scalar; []struct{scalar}; map→*scalar; unexported } -/
